@@ -41,6 +41,7 @@ type tEvent struct {
 	kind       string // add | update | delete
 	oldS, newS any
 	tomb       bool // delete delivered as DeletedFinalStateUnknown
+	echo       bool // the update that echoes a bind of this scheduler (the ledger already holds the pod as assumed)
 }
 
 type stream struct {
@@ -182,6 +183,13 @@ type rSim struct {
 	everSched               map[string]bool
 	globDeleted             map[string]bool // reservation uids the global handler has already deleted from the cache
 	drainUntil              bool
+
+	// C19 mode (resv_c19_verif_test.go)
+	c19      bool
+	tagged   bool // the history meets the trigger of a defect recorded for C05
+	anyBind  bool // at least one bind of this scheduler has succeeded
+	forks    int
+	forkNow  string // set by a successful bind: the run forks right after this step
 }
 
 func newStream(typ string, listeners ...string) *stream {
@@ -198,6 +206,17 @@ func (resvEngine) Execute(r *sim.Run) {
 		inflight: map[string]bool{}, placed: map[string]bool{}, foreign: map[string]bool{}, everSched: map[string]bool{}, globDeleted: map[string]bool{}}
 	r.Plan.GetCfg(&s.cfg)
 	r.Plan.GetOps(&s.ops)
+	s.c19 = r.Prop == "C19"
+	if s.c19 {
+		// a C05 oracle that fails in a C19 run ends the history (see rSim.fail)
+		defer func() {
+			if e := recover(); e != nil {
+				if _, ok := e.(endOfHistory); !ok {
+					panic(e)
+				}
+			}
+		}()
+	}
 	if s.cfg.Nodes < 1 {
 		s.cfg.Nodes = 1
 	}
@@ -257,11 +276,17 @@ func (resvEngine) Execute(r *sim.Run) {
 		if s.quiescent() {
 			s.checkQuiescent()
 		}
+		if s.c19 {
+			s.c19AfterStep(pick.name)
+		}
 	}
 	if !s.quiescent() {
 		r.HarnessFail("driver stopped in a non-quiescent state")
 	}
 	s.checkQuiescent()
+	if s.c19 && s.anyBind {
+		s.fork("end-of-history")
+	}
 }
 
 type action struct {
@@ -443,7 +468,7 @@ func (s *rSim) deliverPlug() string {
 		// history class of finding "reservation-event-after-global-delete": the plugin's listener handles an
 		// older add/update of a reservation after the global handler (another listener of the same informer)
 		// has already removed it from the cache for a later termination/deletion: the entry is resurrected
-		s.r.Tag("reservation-event-after-global-delete")
+		s.tag("reservation-event-after-global-delete")
 	}
 	switch ev.kind {
 	case "add":
@@ -486,7 +511,7 @@ func (s *rSim) deliverPlug() string {
 	}
 	if grew {
 		s.r.Probe("dims-grew-while-assigned")
-		s.r.Tag("dims-grew-while-assigned")
+		s.tag("dims-grew-while-assigned")
 	}
 	s.r.Event("plugin %s", evName(ev))
 	return "plugin handler: " + evName(ev)
@@ -532,7 +557,7 @@ func (s *rSim) deliverGlob() string {
 			// name merged into one update (relist) replaces a cached reservation, and the (old, new) pair matches
 			// none of the global handler's transition cases that delete the old object (old Waiting or terminated,
 			// or old Available and new Waiting): no handler removes the old uid
-			s.r.Tag("reservation-replaced-in-merged-update-unhandled")
+			s.tag("reservation-replaced-in-merged-update-unhandled")
 		}
 	case "delete":
 		o := ev.oldS.(*sResv)
@@ -540,7 +565,7 @@ func (s *rSim) deliverGlob() string {
 			// history class of finding "reservation-deleted-via-object-without-node": the delete notification
 			// carries a state from before this scheduler placed the reservation (relist tombstone after a watch
 			// gap that swallowed the bind), so neither handler removes the assumed entry
-			s.r.Tag("reservation-deleted-via-object-without-node")
+			s.tag("reservation-deleted-via-object-without-node")
 		}
 		del(o)
 	}
@@ -612,7 +637,7 @@ func (s *rSim) tagStaleRequests(o, n *sPod) {
 		return
 	}
 	if o == nil || o.RUID != n.RUID || o.uid() != n.uid() {
-		s.r.Tag("assigned-pod-requests-changed-in-merged-event")
+		s.tag("assigned-pod-requests-changed-in-merged-event")
 	}
 }
 
@@ -623,7 +648,7 @@ func (s *rSim) tagStaleRequests(o, n *sPod) {
 func (s *rSim) tagStaleDelete(gone *sPod) {
 	for _, u := range sortedKeys(s.model.resvs) {
 		if _, ok := s.model.resvs[u].assigned[gone.uid()]; ok && gone.RUID != u {
-			s.r.Tag("assigned-pod-released-via-object-without-record")
+			s.tag("assigned-pod-released-via-object-without-record")
 		}
 	}
 }
@@ -789,6 +814,9 @@ func (s *rSim) bindStep() string {
 		s.st.rv++
 		n.rv = s.st.rv
 		s.st.resvs[n.Name] = n
+		if s.c19 {
+			s.c19ReservationBound(cur, n)
+		}
 		s.notify(sChange{"resv", n.Name, n})
 		s.r.Event("bound-reservation %s", b.ruid)
 		return "bind reservation " + b.ruid
@@ -812,6 +840,9 @@ func (s *rSim) bindStep() string {
 		s.r.Fail("prebind", "", "PreBind of an assumed pod failed: %v", st.Message())
 	}
 	ra, err := apiext.GetReservationAllocated(c.pod)
+	if s.c19 {
+		s.c19CodecRoundTrip(c, b.ruid, ra, err)
+	}
 	if err != nil || ra == nil || string(ra.UID) != b.ruid {
 		s.r.Fail("allocation-record", "", "PreBind recorded %+v (err %v) on pod %s, the pod was assumed into %s", ra, err, puid, b.ruid)
 	}
@@ -822,7 +853,14 @@ func (s *rSim) bindStep() string {
 	s.st.pods[n.Name] = n
 	delete(s.inflight, puid)
 	s.placed[puid] = true
+	nq := len(s.podStream.q)
 	s.notify(sChange{"pod", n.Name, n})
+	if len(s.podStream.q) == nq+1 {
+		s.podStream.q[nq].echo = true
+	}
+	if s.c19 {
+		s.anyBind, s.forkNow = true, "pod-bind"
+	}
 	s.r.Probe("pod-bound-with-reservation")
 	s.r.Event("bound %s to %s on %s", puid, b.ruid, c.node)
 	return fmt.Sprintf("bind %s to %s", puid, b.ruid)
@@ -864,13 +902,13 @@ func (s *rSim) beforePreFilter(c *cycleCtx) *stateData {
 			uid := string(ri.UID())
 			m := s.model.resvs[uid]
 			if m == nil {
-				s.r.Fail("enumeration", "unknown-reservation", "reservation %s is offered on %s but does not exist", uid, n)
+				s.fail("enumeration", "unknown-reservation", "reservation %s is offered on %s but does not exist", uid, n)
 			}
 			owner := ownersMatch(m.snap, ps)
 			c.ownerOK[uid] = owner
 			c.busy[uid] = m.snap.once() && len(m.assigned) > 0
 			if ok && !owner {
-				s.r.Fail("owner", "offered-to-non-owner", "pod %s (ns=%s labels=%v ctrl=%+v) was matched to reservation %s whose owners %+v it does not satisfy", ps.uid(), ps.NS, ps.Labels, ps.Ctrl, uid, m.snap.Owners)
+				s.fail("owner", "offered-to-non-owner", "pod %s (ns=%s labels=%v ctrl=%+v) was matched to reservation %s whose owners %+v it does not satisfy", ps.uid(), ps.NS, ps.Labels, ps.Ctrl, uid, m.snap.Owners)
 			}
 			// the other documented conditions of a match: schedulable (not unschedulable / terminating), affinity
 			other := !(m.snap.Unsch || m.snap.Terminating)
@@ -886,7 +924,7 @@ func (s *rSim) beforePreFilter(c *cycleCtx) *stateData {
 				}
 			}
 			if !ok && owner && other {
-				s.r.Fail("owner", "owner-refused", "pod %s satisfies the owners of reservation %s (and its other match conditions) but was not matched", ps.uid(), uid)
+				s.fail("owner", "owner-refused", "pod %s satisfies the owners of reservation %s (and its other match conditions) but was not matched", ps.uid(), uid)
 			}
 			if ok {
 				s.r.Probe("reservation-matched")
@@ -895,7 +933,7 @@ func (s *rSim) beforePreFilter(c *cycleCtx) *stateData {
 					if ps.Aff != nil {
 						// history class of finding "affinity-pod-vs-busy-allocate-once": a pod with a reservation affinity
 						// is scheduled while an allocate-once reservation it matches already serves a pod
-						s.r.Tag("affinity-pod-vs-busy-allocate-once")
+						s.tag("affinity-pod-vs-busy-allocate-once")
 					}
 				}
 				matched = append(matched, ri.Clone())
@@ -950,10 +988,10 @@ func (s *rSim) fitVerdicts(c *cycleCtx, state *stateData, seeded rl) {
 					s.r.Probe("fit-verdict-with-preemptible")
 				}
 				if len(reasons) == 0 && !want {
-					s.r.Fail("fit", "accepted-over-capacity", "restricted reservation %s (reserved %s inner %s dims %v, assigned pods request %s) accepted pod %s requesting %s with preemptible %s", uid, fmtRL(m.snap.Alloc), fmtRL(m.snap.Inner), m.snap.dims(), fmtRL(m.expectedAllocated()), c.ps.uid(), fmtRL(c.ps.Req), fmtRL(prl))
+					s.fail("fit", "accepted-over-capacity", "restricted reservation %s (reserved %s inner %s dims %v, assigned pods request %s) accepted pod %s requesting %s with preemptible %s", uid, fmtRL(m.snap.Alloc), fmtRL(m.snap.Inner), m.snap.dims(), fmtRL(m.expectedAllocated()), c.ps.uid(), fmtRL(c.ps.Req), fmtRL(prl))
 				}
 				if len(reasons) > 0 && want {
-					s.r.Fail("fit", "refused-with-room", "restricted reservation %s (reserved %s inner %s dims %v, assigned pods request %s) refused pod %s requesting %s with preemptible %s: %v", uid, fmtRL(m.snap.Alloc), fmtRL(m.snap.Inner), m.snap.dims(), fmtRL(m.expectedAllocated()), c.ps.uid(), fmtRL(c.ps.Req), fmtRL(prl), reasons)
+					s.fail("fit", "refused-with-room", "restricted reservation %s (reserved %s inner %s dims %v, assigned pods request %s) refused pod %s requesting %s with preemptible %s: %v", uid, fmtRL(m.snap.Alloc), fmtRL(m.snap.Inner), m.snap.dims(), fmtRL(m.expectedAllocated()), c.ps.uid(), fmtRL(c.ps.Req), fmtRL(prl), reasons)
 				}
 				if len(reasons) > 0 {
 					s.r.Probe("fit-refused")
@@ -1040,7 +1078,7 @@ func (s *rSim) startCycle(op rOp) bool {
 	for _, n := range feasible {
 		ri, st := s.pl.NominateReservation(ctx, c.cs, c.pod, n)
 		if !st.IsSuccess() {
-			s.r.Fail("nominate", "error", "NominateReservation failed: %v", st.Message())
+			s.fail("nominate", "error", "NominateReservation failed: %v", st.Message())
 		}
 		if ri != nil {
 			s.pl.AddNominatedReservation(c.pod, n, ri)
@@ -1080,22 +1118,22 @@ func (s *rSim) reserveStep() string {
 	uid := string(state.assumed.UID())
 	m := s.model.resvs[uid]
 	if m == nil {
-		s.r.Fail("assume", "into-missing-reservation", "pod %s was assumed into %s which is not in the cache", puid, uid)
+		s.fail("assume", "into-missing-reservation", "pod %s was assumed into %s which is not in the cache", puid, uid)
 	}
 	if m.snap.Terminating {
-		s.r.Fail("assume", "into-terminating-reservation", "pod %s was assumed into %s which is terminating", puid, uid)
+		s.fail("assume", "into-terminating-reservation", "pod %s was assumed into %s which is terminating", puid, uid)
 	}
 	if c.busy[uid] {
-		s.r.Fail("allocate-once", "second-pod-assumed", "allocate-once reservation %s already served a pod when it was nominated for pod %s; it now serves %v and the pod was assumed into it", uid, puid, sortedKeys(m.assigned))
+		s.fail("allocate-once", "second-pod-assumed", "allocate-once reservation %s already served a pod when it was nominated for pod %s; it now serves %v and the pod was assumed into it", uid, puid, sortedKeys(m.assigned))
 	}
 	if _, dup := m.assigned[puid]; !dup && m.snap.once() && len(m.assigned) > 0 {
 		s.r.Probe("allocate-once-raced-after-nomination")
 	}
 	if ok, seen := c.ownerOK[uid]; !seen || !ok {
-		s.r.Fail("owner", "assumed-non-owner", "pod %s was assumed into reservation %s whose owner specification it does not satisfy (seen at snapshot: %v)", puid, uid, seen)
+		s.fail("owner", "assumed-non-owner", "pod %s was assumed into reservation %s whose owner specification it does not satisfy (seen at snapshot: %v)", puid, uid, seen)
 	}
 	if c.restr[uid] && !c.fitOK[uid] {
-		s.r.Fail("fit", "assumed-over-capacity", "pod %s requesting %s was let into restricted reservation %s although sum+request exceeded the reserved amount when it was checked", puid, fmtRL(c.ps.Req), uid)
+		s.fail("fit", "assumed-over-capacity", "pod %s requesting %s was let into restricted reservation %s although sum+request exceeded the reserved amount when it was checked", puid, fmtRL(c.ps.Req), uid)
 	}
 	s.model.assign(uid, c.ps, false)
 	s.binds = append(s.binds, &bindTask{kind: "pod", c: c, ruid: uid})
